@@ -43,7 +43,7 @@ package main
 // Trace points are next to, not atomic with, the operations they report.
 // Producers log before a channel send and consumers after the receive, so the
 // logged order respects causality for every single item; the two places where
-// this is impossible are normalised here (documented at normalise()).
+// this is impossible are normalised here (documented at onTrace case "dt" and pipeNormalise()).
 
 import (
 	"context"
@@ -547,14 +547,17 @@ func (r *pipeRec) settle(timeout time.Duration) bool {
 	}
 }
 
-// normalise removes the `rs` token of a block whose forward was then dropped
-// (`rd`): `rs` is logged before the send on the results channel, `rd` when the
-// send was abandoned because of cancellation.
+// pipeNormalise removes the "about to send" token of a block whose send was then
+// abandoned because of cancellation: `rs` / `dp` / `vp` are logged before the
+// channel send, `rd` / `dd` / `vd` when the select took the ctx.Done branch instead.
 func pipeNormalise(ev []string) []string {
 	dropped := map[string]bool{}
+	intent := map[string]string{"rd:": "rs:", "dd:": "dp:", "vd:": "vp:"}
 	for _, e := range ev {
-		if strings.HasPrefix(e, "rd:") {
-			dropped["rs:"+e[3:]] = true
+		if len(e) > 3 {
+			if in, ok := intent[e[:3]]; ok {
+				dropped[in+e[3:]] = true
+			}
 		}
 	}
 	out := ev[:0:0]
@@ -607,7 +610,7 @@ func runPipe(op string) string {
 	}
 	close(r.gateCh) // gate open
 	pipeCur.Store(r)
-	defer pipeCur.Store(nil)
+	defer pipeCur.CompareAndSwap(r, nil)
 
 	opts := []pipeline.PipelineOption{
 		pipeline.WithDecodeWorkers(sc.dw),
